@@ -188,7 +188,7 @@ def cases(ctx):
     for required in (False, True):
         for builders in (False, True):
             kw = dict(required=required, builders=builders)
-            for ref in (False, True):
+            for ref in (False, True, "bare"):
                 for v in ENUM:
                     full.append(mk({"enum": ENUM}, v, "default", ref=ref, **kw))
             for v in ({}, {"k": "v"}, {"k": "v", "l": "w"}):
@@ -205,7 +205,8 @@ def cases(ctx):
         mem = r.sample(mem, 2500)
     out += full + mem
     # ---- E on documents: target x usage, several sites ------------------------------------------------
-    out += usage_cases(ctx, r, full + mem, 900 if ctx.quick else 12000)
+    # (bare `$ref` members with sibling keywords are judged by dflt.member only: F17-7)
+    out += usage_cases(ctx, r, [c for c in full + mem if c["in"].get("ref") != "bare"], 900 if ctx.quick else 12000)
     out += site_cases(ctx, r, 500 if ctx.quick else 6000)
     return out
 
